@@ -187,8 +187,15 @@ def run_shard(part, tier, seed, n, ctx, guard_path=None, raise_sig=None, best_pa
         return run_machine_shard(part, tier, seed, n, ctx, guard_path, raise_sig, best_path)
     strat = part.strategy(tier)
     best = {"size": None}
+    # Hypothesis always starts with the all-minimal example: identical in every shard, so only shard 0 runs it
+    skip_first = {"todo": seed % 1000 != 0}
+    if skip_first["todo"]:
+        n += 1
 
     def body(case):
+        if skip_first["todo"]:
+            skip_first["todo"] = False
+            return
         sigs = run_case(part, case, ctx, guard_path)
         if raise_sig is not None and raise_sig in sigs:
             size = len(json.dumps(case))
